@@ -346,8 +346,7 @@ def tee_args_check(res: Result) -> None:
                                             f"itertools.tee gives {want}", "C19:tee:args"))
 
 
-def run_tee(ctx: Ctx, res: Result, corpus: list, share: float = 1.0) -> None:
-    t_end = ctx.deadline - (1.0 - share) * max(ctx.time_left(), 0.0)
+def run_tee(ctx: Ctx, res: Result, corpus: list, t_end: float) -> None:
     st = res.stats.setdefault("tee", {})
     tee_args_check(res)
     batch: list[TeeBench] = []
@@ -362,17 +361,18 @@ def run_tee(ctx: Ctx, res: Result, corpus: list, share: float = 1.0) -> None:
     # 1. coarse interleavings, exhaustively, smallest configurations first
     full: list[str] = []
     partial: list[str] = []
-    cap = ctx.n(2500, 400000)
+    cap = ctx.n(1500, 400000)
     configs = []
     for total in range(0, 8):
         for n in (1, 2, 3):
             L = total - n
             if 0 <= L <= 4:
                 for mode in ("gate", "direct", "sync", "sleep"):
-                    if mode != "gate" and (n, L) not in ((2, 2), (3, 1), (2, 4), (3, 2)):
+                    if mode != "gate" and (n, L) not in (
+                            ((2, 2), (3, 1), (2, 4)) if ctx.tier == "quick" else ((2, 2), (3, 1), (2, 4), (3, 2))):
                         continue
                     configs.append({"n": n, "xs": list(range(5, 5 + L)), "mode": mode, "fine": False,
-                                    "extra": 1 if L <= 1 else 0})
+                                    "extra": 1 if (L <= 1 and mode == "gate") else 0})
     for cfg in configs:
         if time.time() > t_end:
             partial.append(f"n={cfg['n']} len={len(cfg['xs'])} {cfg['mode']}: not started")
@@ -386,7 +386,17 @@ def run_tee(ctx: Ctx, res: Result, corpus: list, share: float = 1.0) -> None:
             if len(batch) >= 400:
                 flush()
         tag = f"n={cfg['n']} len={len(cfg['xs'])} {cfg['mode']}: {cnt}"
-        (full if left == 0 else partial).append(tag + ("" if left == 0 else f" (+{left} prefixes open)"))
+        if left:
+            # too many interleavings for this tier: add uniformly random schedules of this config
+            extra_n = ctx.n(300, 20000)
+            for _ in range(extra_n):
+                if time.time() > t_end:
+                    break
+                batch.append(run_one({"tee": cfg, "choices": [ctx.rng.randint(0, 11) for _ in range(60)]}))
+                if len(batch) >= 400:
+                    flush()
+            tag += f" by DFS (not exhausted) + {extra_n} random"
+        (full if left == 0 else partial).append(tag)
     flush()
     st["coarse_exhaustive"] = full
     st["coarse_partial"] = partial
